@@ -1,6 +1,8 @@
 package checks
 
 import (
+	"strings"
+
 	"grits/zverif/gen"
 	"grits/zverif/harness"
 	"grits/zverif/ref"
@@ -14,10 +16,18 @@ func generatedPrograms(c *harness.Ctx) []gen.GenProgram {
 		return g
 	}
 	var g []gen.GenProgram
+	g = gen.Programs(3, 2, c.Thorough())
 	if c.Thorough() {
-		g = gen.Programs(4, 2, true)
-	} else {
-		g = gen.Programs(3, 2, false)
+		seen := map[string]bool{}
+		for _, x := range g {
+			seen[x.Text] = true
+		}
+		for _, x := range gen.Programs(4, 2, false) {
+			if !seen[x.Text] {
+				x.Name = "gen4/" + strings.TrimPrefix(x.Name, "gen/")
+				g = append(g, x)
+			}
+		}
 	}
 	genCache[c.Tier] = g
 	return g
